@@ -68,6 +68,26 @@ impl CKBProtocolHandler for SyncProtocol {
         match message {
             packed::SyncMessageUnionReader::SendBlock(reader) => {
                 let new_block = reader.to_entity().block();
+                // The block body must be committed by its (proved) header.
+                {
+                    let block_view = new_block.clone().into_view_without_reset_header();
+                    if block_view.transactions_root() != block_view.calc_transactions_root()
+                        || block_view.extra_hash() != block_view.calc_extra_hash().extra_hash()
+                    {
+                        warn!(
+                            "SyncProtocol.received a block whose body doesn't match its header \
+                            from Peer({}), block hash: {:#x}",
+                            peer,
+                            block_view.hash()
+                        );
+                        nc.ban_peer(
+                            peer,
+                            BAD_MESSAGE_BAN_TIME,
+                            String::from("send us a block whose body doesn't match its header"),
+                        );
+                        return;
+                    }
+                }
                 let mut matched_blocks = self.peers.matched_blocks().write().expect("poisoned");
                 self.peers.add_block(&mut matched_blocks, new_block);
 
